@@ -1012,7 +1012,10 @@ def rule_call_registers(rep, idx, rid='R14'):
                                                                                ('var', 'gr-call'), ('num', 'neg-call'), ('gr-call', 'var'), ('op', 'gr-call', 'var'),
                                                                                ('num', 'call', 'num'), ('num', 'gr-call', 'num'), ('var', 'call', 'var'),
                                                                                ('num', 'num', 'call'), ('num', 'var', 'num'),
-                                                                               ('k', 'call', 'k'), ('k', 'k', 'call'), ('k', 'var', 'k'), ('k', 'gr-call', 'k')]):
+                                                                               ('k', 'call', 'k'), ('k', 'k', 'call'), ('k', 'var', 'k'), ('k', 'gr-call', 'k'),
+                                                                               # a bare call next to a compound actual that contains a call, in both orders
+                                                                               ('call', 'gr-call'), ('call', 'neg-call'), ('gr-call', 'call'), ('neg-call', 'call'),
+                                                                               ('call', 'var', 'gr-call'), ('gr-call', 'neg-call')]):
             M = CodeGenModel(idx, 'A')
             for n in ('a', 'b', 'c', "a'", "b'", "c'"):
                 M.symbol(n, 'VAR', 'f')
